@@ -32,6 +32,7 @@ import (
 	"io"
 	"os"
 	"path/filepath"
+	"regexp"
 	"sort"
 	"strconv"
 	"strings"
@@ -2119,6 +2120,12 @@ func runC13() {
 		"package a struct R root { F S dict(D) G []S dict(D2) } struct S dict(DS) { X O } oneof O { A R B []O }",
 		"package a.b.c struct R root { F S optional G M optional } struct S { } multimap M { key S value M }",
 		allProductions,
+		// field modifiers in the other order (refused by the grammar: dict(..) belongs to the type,
+		// optional follows it; if a parser accepts them, what it builds must still survive print -> parse)
+		"package a struct R root { F []string optional dict(D) }",
+		"package a struct R root { F []S optional dict(DS) G string optional dict(D) } struct S dict(DS) { X int64 }",
+		"package a struct R root { F string optional dict(D) }",
+		"package a struct R root { F M optional dict(D) } multimap M { key string value []string optional }",
 	}
 	for i, t := range fixed {
 		printParseCase(fmt.Sprintf("fixed%d", i), t)
@@ -2140,6 +2147,18 @@ func runC13() {
 		o := genOpts{enums: r.Bool(), arrayElemDict: r.Bool(), rootless: r.Chance(1, 6), oddFormat: r.Bool()}
 		stats["gen-pass-B"]++
 		printParseCase(fmt.Sprintf("genB%d", k), genSchema(r, o))
+	}
+	// pass C: generated schemas with `dict(X) optional` rewritten to `optional dict(X)`
+	swapRe := regexp.MustCompile(`dict\(([A-Za-z0-9_]+)\)(\s+)optional`)
+	for k := 0; k < n/4; k++ {
+		o := genOpts{enums: r.Bool(), arrayElemDict: true, oddFormat: r.Bool()}
+		t := genSchema(r, o)
+		t2 := swapRe.ReplaceAllString(t, "optional${2}dict($1)")
+		if t2 == t {
+			continue
+		}
+		stats["gen-pass-C-swapped-modifiers"]++
+		printParseCase(fmt.Sprintf("genC%d", k), t2)
 	}
 	serdeCases()
 	concurrentCases()
